@@ -162,7 +162,27 @@ def mk_ref(t):
     return T("ref", t)
 
 
+def _split_first_payload(base, idx):
+    """`(x.split_first() as Some).0` is the pair (&x[0], &x[1..]): project it to the canonical index / range terms."""
+    if not (base.op == "field" and base.a[1] == "0" and base.a[0].op == "downcast" and base.a[0].a[1] == "Some" and idx in (0, 1)):
+        return None
+    c = base.a[0].a[0]
+    while c.op in ("ref", "deref"):
+        c = c.a[0]
+    if not (c.op == "call" and isinstance(c.a[0], tuple) and c.a[0][0] == "slice::<impl [T]>::split_first" and len(c.a[1]) == 1):
+        return None
+    x = c.a[1][0]
+    if idx == 0:
+        return mk_ref(T("index", mk_deref(x), T("const", "int", 0, "usize")))
+    elem = c.a[0][1][0] if c.a[0][1] else "T"
+    rng = T("agg", ("adt", "RangeFrom", "RangeFrom", ("start",)), (T("const", "int", 1, "usize"),))
+    return T("call", ("Index::index", ("[%s]" % elem, "RangeFrom<usize>")), (x, rng), *c.a[2:])
+
+
 def mk_field(base, idx, name):
+    sp = _split_first_payload(base, idx)
+    if sp is not None:
+        return sp
     if base.op == "agg":
         kind, ops = base.a
         if kind[0] in ("tuple", "adt", "closure") and isinstance(idx, int) and idx < len(ops):
@@ -227,6 +247,8 @@ def subst(t, mapping, memo=None):
                 names = list(kind[3]) if len(kind) > 3 else None
             if names and name in names:
                 r = mk_field(base, names.index(name), name)
+        if r is None and name in ("0", "1"):
+            r = _split_first_payload(base, int(name))
         if r is None:
             r = T("field", base, name)
     elif op == "downcast":
